@@ -280,3 +280,16 @@ ASSUMPTIONS = [
     "asyncio is trusted behind the contract stubs: a cancelled task/future does not continue, asyncio.timeout cancels what it guards, locks are mutually exclusive, queues are FIFO, tasks switch only at awaits; interleavings inside one await are represented by 'the awaited object completes with any admissible value, times out, or the connection closes'",
     "'running' means: task handle created and not cancelled",
 ]
+
+
+# ------------------------------------------------------------------ "once per reconnection" relies on the connection manager
+# connection_changes_reach_every_task starts at the registry's state-change callback. That the callback is
+# called once per real change of the connection state - also on the thread-safe path, where the change is applied
+# later in the main loop - is the contract of ConnectionManager, proved in C25; an obligation here too.
+
+from contracts import c25_connection as _c25  # noqa: E402
+from pyvc.api import rely_on  # noqa: E402
+
+rely_on("C36", _c25.state_changes_only_on_real_transitions)
+rely_on("C36", _c25.no_callback_without_transition)
+rely_on("C36", _c25.threadsafe_path_defers_the_same_transition)
